@@ -113,7 +113,21 @@ pub trait Prop: Sync {
     }
 }
 
+/// proc-macro2 (with span locations, which pyxis needs for line/column in its errors) keeps the text of
+/// everything parsed on a thread in a thread-local source map that only ever grows: tens of gigabytes over
+/// a thorough run of C09, which builds each program hundreds of times. A judge keeps no spans beyond its
+/// own return and does not yield to other judges on its thread, so the map can be emptied between cases.
+pub fn release_parser_memory() {
+    proc_macro2::extra::invalidate_current_thread_spans();
+}
+
 fn judge_counted<P: Prop>(p: &P, c: &P::Case) -> Outcome {
+    let o = judge_counted_inner(p, c);
+    release_parser_memory();
+    o
+}
+
+fn judge_counted_inner<P: Prop>(p: &P, c: &P::Case) -> Outcome {
     let mut o = p.judge(c);
     // debugging aid (never set by the registered commands): turn discards whose reason contains the
     // given text into failures, so that one is shrunk and saved
@@ -497,6 +511,7 @@ fn shrink<P: Prop, T: ValueTree<Value = Vec<u32>>>(
         let mut t = Tape::new(tape);
         let c = p.gen(&mut t);
         let o = p.judge(&c);
+        release_parser_memory();
         let f = match o.verdict {
             Verdict::Fail(k, d) if k == kind => Some((k, d)),
             _ => None,
@@ -566,7 +581,14 @@ fn shrink_structurally<P: Prop>(p: &P, mut best: P::Case, kind: &str, mut detail
             break;
         }
         spent += end - start;
-        let outs: Vec<Outcome> = cands[start..end].par_iter().map(|c| p.judge(c)).collect();
+        let outs: Vec<Outcome> = cands[start..end]
+            .par_iter()
+            .map(|c| {
+                let o = p.judge(c);
+                release_parser_memory();
+                o
+            })
+            .collect();
         let mut adopted = None;
         for (k, o) in outs.into_iter().enumerate() {
             if let Verdict::Fail(kd, d) = o.verdict {
